@@ -204,18 +204,18 @@ def matchOp (c : Ctx) (s : OpSpec) (ops : List Operand) : Option (List Operand) 
       | some v => if r.id < 2 ^ fieldWidth c.fields fld && r.id == (v + d) % 32 then some rest else none
       | none => none
     else none
-  | .immU fld scale, .imm v p :: rest =>
+  | .immU fld scale, .imm v _ :: rest =>   -- the shift predicate of an Imm has no meaning in a plain immediate position
     match c.get fld with
-    | some f => if p == 0 && v.toNat == f * scale then some rest else none
+    | some f => if v.toNat == f * scale then some rest else none
     | none => none
-  | .immS fld, .imm v p :: rest =>
+  | .immS fld, .imm v _ :: rest =>
     match c.get fld with
-    | some f => if p == 0 && v.toInt == sext (fieldWidth c.fields fld) f then some rest else none
+    | some f => if v.toInt == sext (fieldWidth c.fields fld) f then some rest else none
     | none => none
-  | .immConst k, .imm v p :: rest => if p == 0 && v.toNat == k then some rest else none
-  | .cond fld inv, .imm v p :: rest =>
+  | .immConst k, .imm v _ :: rest => if v.toNat == k then some rest else none
+  | .cond fld inv, .imm v _ :: rest =>
     match c.get fld with
-    | some f => if p == 0 && v.toNat < 16 && f == (if inv then (condField v.toNat) ^^^ 1 else condField v.toNat) then some rest else none
+    | some f => if v.toNat < 16 && f == (if inv then (condField v.toNat) ^^^ 1 else condField v.toNat) then some rest else none
     | none => none
   | .shift sopF nF ror b64, ops =>
     match c.get sopF, c.get nF with
@@ -241,7 +241,7 @@ def matchOp (c : Ctx) (s : OpSpec) (ops : List Operand) : Option (List Operand) 
     match c.get immF, c.get shF with
     | some i, some sh =>
       let denoted := i * (if sh == 1 then 4096 else 1)
-      if p != 0 then none else
+      let _ := p
       match rest0 with
       | .imm s ps :: rest =>
         if ps == sopLSL && (s.toNat == 0 || s.toNat == 12) && v.toNat * 2 ^ s.toNat == denoted then some rest else none
@@ -257,12 +257,14 @@ def matchOp (c : Ctx) (s : OpSpec) (ops : List Operand) : Option (List Operand) 
       let want := if b64 then v else v &&& 0xFFFFFFFF#64
       -- BIC / BICS (immediate) are aliases of AND / ANDS with the inverted immediate
       let want := if c.name == "bic" || c.name == "bics" then (if b64 then ~~~want else (~~~want) &&& 0xFFFFFFFF#64) else want
-      if p == 0 && dec == some want then some rest else none
+      let _ := p
+      if dec == some want then some rest else none
     | none => none
   | .wide immF hwF b64, .imm v p :: rest0 =>
     match c.get immF, c.get hwF with
     | some i, some hw =>
-      if p != 0 || v.toNat != i || (!b64 && hw ≥ 2) then none else
+      let _ := p
+      if v.toNat != i || (!b64 && hw ≥ 2) then none else
       match rest0 with
       | .imm s ps :: rest => if ps == sopLSL && s.toNat == 16 * hw then some rest else none
       | rest => if hw == 0 then some rest else none
@@ -273,14 +275,16 @@ def matchOp (c : Ctx) (s : OpSpec) (ops : List Operand) : Option (List Operand) 
       let sz := opWidth b64
       let l := lsb.toNat
       let wd := width.toNat
-      if p1 != 0 || p2 != 0 || l ≥ sz || wd == 0 || l + wd > sz then none else
+      let _ := (p1, p2)
+      if l ≥ sz || wd == 0 || l + wd > sz then none else
       if kind == 0 then (if immr == (sz - l) % sz && imms == wd - 1 then some rest else none)
       else (if immr == l && imms == l + wd - 1 then some rest else none)
     | _, _ => none
   | .shiftAlias kind b64, .imm v p :: rest =>
     let sz := opWidth b64
     let n := v.toNat
-    if p != 0 || n ≥ sz then none else
+    let _ := p
+    if n ≥ sz then none else
     if kind == 2 then (if c.get "n" == some n || c.get "imm" == some n then some rest else none) else
     match c.get "immr", c.get "imms" with
     | some immr, some imms =>
@@ -294,7 +298,7 @@ def matchOp (c : Ctx) (s : OpSpec) (ops : List Operand) : Option (List Operand) 
       let pcv : Nat := if page then c.pc.toNat / 4096 * 4096 else c.pc.toNat
       let target : Option (BitVec 64) :=
         match op with
-        | .imm v p => if p == 0 then some v else none
+        | .imm v _ => some v
         | .label => some baseAddress
         | _ => none
       match target with
@@ -396,6 +400,15 @@ def describesMovImm (r : Reg) (v : BitVec 64) (words : List (BitVec 32)) : Bool 
       ws.length ≤ 4 && e1.1 && e1.2 == want && e2.2 == want && ws.all (fun w => w.getLsbD 31 == b64)
     | none => false
 
+/-- `LDR/STR (immediate)` with an offset that the scaled unsigned form cannot hold is assembled as the unscaled
+`LDUR/STUR` form (Arm ARM C6.2 "LDUR ... alias"; GNU as and LLVM do the same): forms of the alias mnemonic also describe it. -/
+def unscaledAlias (name : String) : Option String :=
+  match name with
+  | "ldr" => some "ldur" | "ldrb" => some "ldurb" | "ldrh" => some "ldurh" | "ldrsb" => some "ldursb"
+  | "ldrsh" => some "ldursh" | "ldrsw" => some "ldursw" | "str" => some "stur" | "strb" => some "sturb"
+  | "strh" => some "sturh" | "prfm" => some "prfum"
+  | _ => none
+
 /-! ### the monitor -/
 
 inductive Verdict where
@@ -411,7 +424,8 @@ def judge (forms : List Form) (name : String) (ops : List Operand) (pc : BitVec 
   | .ok words =>
     match name, ops with
     | "mov", [.reg r, .imm v p] =>
-      if p == 0 && describesMovImm r v words then .full else .bad "mov-imm-does-not-load-the-value"
+      let _ := p
+      if describesMovImm r v words then .full else .bad "mov-imm-does-not-load-the-value"
     | _, _ =>
     match words with
     | [w] =>
